@@ -333,6 +333,9 @@ struct SeqOut {
 
 /// Run `steps` instructions of a case on the real machine and on REF-ISA in lock-step.
 /// None = agreement (or the run entered supervision territory, which is C05's).
+/// Clock edges from the continue key (machine Stopped by a first-byte STOP) to the next boundary.
+const STOP_RESUME_EDGES: u32 = 1;
+
 static LOCKSTEP_INSTRUCTIONS: std::sync::atomic::AtomicU64 = std::sync::atomic::AtomicU64::new(0);
 
 fn lockstep(case: &Case, steps: usize, mode: Mode) -> Option<(String, String, &'static str)> {
@@ -391,11 +394,16 @@ fn lockstep_looking(case: &Case, steps: usize, mode: Mode, look: bool) -> Option
                         continued += 1;
                         m.trigger_key_continue();
                         match mach::to_boundary_observed(&mut m, 64, look) {
-                            RunEnd::Boundary(_) => {
+                            RunEnd::Boundary(e) => {
                                 if mode == Mode::C01 {
                                     if let Some((field, what)) = sw::compare(&m, &c, &mem) {
                                         return Some((format!("isa/STOP-continue/{}", field), format!("step {}: after continue: {}", step, what), info.form));
                                     }
+                                }
+                                // frozen from the control store: after the continue key the STOP's closing word
+                                // runs (one micro-step, no RAM access), then the next fetch word is current
+                                if mode == Mode::C15 && e != STOP_RESUME_EDGES {
+                                    return Some(("cycles/STOP-continue".to_string(), format!("step {}: {} clock edges from the continue key to the next boundary, expected {}", step, e, STOP_RESUME_EDGES), info.form));
                                 }
                                 continue;
                             }
@@ -505,6 +513,92 @@ fn repo_runs(mode: Mode, steps: usize) -> (Stats, u64, usize) {
     }
     let _ = steps;
     (st, LOCKSTEP_INSTRUCTIONS.load(std::sync::atomic::Ordering::Relaxed) - before, n)
+}
+
+/// G7: every instruction of the sequence alphabet with a key interrupt pending and enabled when it
+/// starts: the instruction and the interrupt entry that follows it (the `int:` word, two pushes, the jump
+/// to the routine) are one interval between two boundaries; REF-ISA gives its result (frame on the stack,
+/// IE cleared, PC = 2) and its cost in clock edges. Two start states, the press right at the boundary.
+fn interrupted_forms(mode: Mode) -> (Stats, u64) {
+    let alpha = alphabet();
+    let starts = [Cpu { r: [0x00, 0x00, 0x00], pc: 0x10, fr: 0x08, sp: 0xEF }, Cpu { r: [0x80, 0x7F, 0xD0], pc: 0x10, fr: 0x0F, sp: 0xE0 }];
+    let n = alpha.len() * starts.len();
+    let outs = mc::par_ranges(n, n.max(1), |rg| {
+        let mut st = Stats::default();
+        let mut instr = 0u64;
+        for idx in rg {
+            let (ai, si) = (idx / starts.len(), idx % starts.len());
+            let (nm, bytes) = &alpha[ai];
+            if nm.starts_with("ST (next+2)") {
+                continue;
+            }
+            let mut code = bytes.clone();
+            code.extend([0x02, 0x02, 0x01]);
+            let mut case = Case { cpu: starts[si], scratch: (0x00, 0xFF), ram: sw::pattern(si), inputs: [0x0F, 0xF0, 0x55, 0xAA], di1: 0x02 };
+            sw::place(&mut case.ram, 0x00, &[0x02, 0x02, 0x46, 0x02, 0x2C]); // routine at 2: INC R2 ; NOP ; RETI
+            sw::place(&mut case.ram, case.cpu.pc, &code);
+            sw::place(&mut case.ram, 0x30, &[0x46, 0x17]);
+            let group = format!("G7 start={} interrupted {}", si, nm);
+            let res = mc::catch(|| -> Option<(String, String)> {
+                let mut m = case.machine();
+                m.raw_mut().bus_mut().write(0xF9, 0x01);
+                let mut c = case.cpu;
+                let mut mem = case.refmem();
+                if !matches!(mach::to_boundary(&mut m, 4), RunEnd::Boundary(_)) {
+                    return Some(("completion".into(), "no first boundary".into()));
+                }
+                m.trigger_key_interrupt();
+                let mut latch = true;
+                for step in 0..3 {
+                    let info = isa::step(&mut c, &mut mem, &mut latch);
+                    if c.sp >= 0xF0 || info.sp_values.iter().any(|&s| s >= 0xF0) {
+                        return None;
+                    }
+                    let end = mach::to_boundary(&mut m, 4096);
+                    match (info.outcome, end) {
+                        (Outcome::Done, RunEnd::Boundary(e)) => {
+                            if mode == Mode::C15 && e != info.words + info.waits {
+                                return Some((format!("cycles/{}{}", info.form, if info.int_taken { "+interrupt-entry" } else { "" }), format!("step {}: edges expected {} (words {} + waits {}{}) observed {}", step, info.words + info.waits, info.words, info.waits, if info.int_taken { ", interrupt entry included" } else { "" }, e)));
+                            }
+                        }
+                        (Outcome::Stop, RunEnd::Halted(_, State::Stopped)) | (Outcome::ErrorStop, RunEnd::Halted(_, State::ErrorStopped)) | (Outcome::Hang, RunEnd::Timeout) => return None,
+                        (o, e) => return Some((format!("isa/{}/completion", info.form), format!("step {}: REF outcome {:?}, machine {:?}", step, o, e))),
+                    }
+                    if mode == Mode::C01 {
+                        let got = mach::cpu_of(&m);
+                        if got != c {
+                            return Some((format!("isa/{}{}/cpu", info.form, if info.int_taken { "+interrupt-entry" } else { "" }), format!("step {}: cpu expected {:x?} observed {:x?}", step, c, got)));
+                        }
+                        if m.bus().memory()[..] != mem.ram[..] {
+                            let i = (0..240).find(|&i| m.bus().memory()[i] != mem.ram[i]).unwrap();
+                            return Some((format!("isa/{}{}/ram", info.form, if info.int_taken { "+interrupt-entry" } else { "" }), format!("step {}: ram[{:#04x}] expected {:#04x} observed {:#04x}", step, i, mem.ram[i], m.bus().memory()[i])));
+                        }
+                    }
+                }
+                None
+            });
+            instr += 3;
+            st.evals += 1;
+            match res {
+                Ok(None) => st.changed += 1,
+                Ok(Some((key, what))) => {
+                    let is_cycle = key.contains("cycles/");
+                    if (mode == Mode::C15) == is_cycle {
+                        st.bad_case(format!("interrupted/{}", key), &case, format!("[{}] {}", group, what));
+                    }
+                }
+                Err(p) => st.bad_case(format!("panic/{}", p.file()), &case, format!("[{}] panic at {}: {}", group, p.site(), p.msg)),
+            }
+        }
+        (st, instr)
+    });
+    let mut st = Stats::default();
+    let mut instr = 0;
+    for (o, i) in outs {
+        st.merge(o);
+        instr += i;
+    }
+    (st, instr)
 }
 
 /// G4: all instruction sequences up to `depth` from each start state, lock-step with REF-ISA.
@@ -664,6 +758,11 @@ pub fn run(mode: Mode) {
     st.merge(sst);
     st.merge(ist);
     ctx.set("io_page_code_runs", io_evals);
+    let (g7, g7instr) = interrupted_forms(mode);
+    let seq_evals = seq_evals + g7.evals;
+    let instr = instr + g7instr;
+    ctx.set("interrupted_instruction_runs", g7.evals);
+    st.merge(g7);
     let (rst, rinstr, rn) = repo_runs(mode, if quick { 1500 } else { 20000 });
     let seq_evals = seq_evals + rst.evals;
     st.merge(rst);
